@@ -941,6 +941,10 @@ def pred_lang(test, var, alpha, atom=None):
             return rl('.+')
         if norm(t) in ('%s.strip()' % var, '%s.lstrip()' % var, '%s.rstrip()' % var):
             return rl(r'.*\S.*')
+        if norm(t) == '%s.isspace()' % var:
+            return rl(r'\s+')
+        if norm(t) == '%s.isdigit()' % var:
+            return rl(r'\d+')
         if isinstance(t, ast.Call) and isinstance(t.func, ast.Attribute) and t.func.attr in ('strip', 'lstrip', 'rstrip') and norm(t.func.value) == var \
                 and len(t.args) == 1 and isinstance(t.args[0], ast.Constant) and isinstance(t.args[0].value, str) and t.args[0].value:
             # non-empty after stripping the given characters <=> some character is outside the set
